@@ -375,6 +375,33 @@ def run(run: Run) -> int:
         meta = {"skeleton": [list(sk[0]), list(sk[1]), {"shared-control-flow-node used in": list(sk[2]), "its operand used in": list(sk[3]),
                                                         "reversed": sk[4]}], "legal": True}
         cases.append(B.Case(ins, outs, False, meta))
+    # ONE callback function object handed to several constructor calls (two If nodes of one model; both branches of one If; a Loop body
+    # used twice): each application is its own operator application with its own bodies - a legal program, emitted once each
+    import numpy as _np
+    for shape_ in ("two-ifs-share-a-branch", "both-branches-one-callable", "two-loops-share-a-body"):
+        x = B.argument(B.Tensor(_np.float32, (2,)))
+        c1, c2 = B.argument(B.Tensor(_np.bool_, ())), B.argument(B.Tensor(_np.bool_, ()))
+        shared = B.op17.mul(x, x)
+
+        def fallback():
+            return [B.op17.add(shared, x)]
+
+        def lbody(i, k, a):
+            return [k, B.op17.add(a, shared)]
+
+        if shape_ == "two-ifs-share-a-branch":
+            (r1,) = B.op17.if_(c1, then_branch=lambda: [B.op17.neg(x)], else_branch=fallback)
+            (r2,) = B.op17.if_(c2, then_branch=lambda: [B.op17.relu(x)], else_branch=fallback)
+            outs_ = {"o": B.op17.add(r1, r2)}
+        elif shape_ == "both-branches-one-callable":
+            (r1,) = B.op17.if_(c1, then_branch=fallback, else_branch=fallback)
+            outs_ = {"o": B.op17.add(r1, x)}
+        else:
+            n3 = B.op17.const(_np.array(2, _np.int64))
+            r1 = B.op17.loop(n3, v_initial=[x], body=lbody)[0]
+            r2 = B.op17.loop(n3, v_initial=[r1], body=lbody)[0]
+            outs_ = {"o": B.op17.add(r1, r2)}
+        cases.append(B.Case({"x": x, "c1": c1, "c2": c2}, outs_, True, {"skeleton": shape_, "legal": True, "fixed": True}))
     n_skel = len(cases)
     g = B.GenX(run.rng, leak_p=0.5, features=("func",))
     for _ in range(150 if quick else 2500):
@@ -409,7 +436,7 @@ def run(run: Run) -> int:
         probs = []
         if c.model_proto is not None:
             probs += [] if inline_with_unused_input(c) else placement_oracle(c.model_proto)
-            probs += count_oracle(c) if "skeleton" in c.meta else []
+            probs += count_oracle(c) if "skeleton" in c.meta and not c.meta.get("fixed") else []
             if "skeleton" in c.meta and not c.meta["legal"]:
                 probs.append("a value depending on a Loop body's argument is used outside that body, but build returned a model")
         elif "skeleton" in c.meta and c.meta["legal"]:
